@@ -3,6 +3,7 @@ package sim
 import (
 	"fmt"
 	"runtime/debug"
+	"strings"
 	"sync"
 
 	"github.com/ipld/go-ipld-prime/zzsimhook"
@@ -60,10 +61,28 @@ type Sim struct {
 	Log      *Log
 	MaxQ     int // maximal quantum (yield points run without a scheduling decision)
 	Finished []*Task
+
+	// Deadlock: set when every unfinished task was found waiting for a lock (see YieldBlocked);
+	// holds the sites they wait at.
+	Deadlock      string
+	blockedStreak int
+	blockedSites  []string
+}
+
+// Deadlocked is what a task panics with when the run is found deadlocked.
+type Deadlocked struct{ Sites string }
+
+// IsStepCap makes the scenarios' panic-to-result wrappers pass it on to the task level
+// (like the step cap, it ends the task; unlike the step cap, the runner records it as the task's panic).
+func (Deadlocked) IsStepCap() {}
+
+func (d Deadlocked) Error() string {
+	return "deadlock: every unfinished task waits for a lock that is never released (" + d.Sites + ")"
 }
 
 func NewSim(t *Tape, b Baton) *Sim {
 	s := &Sim{T: t, B: b, MaxSteps: 200000, Log: NewLog(), MaxQ: 6, IHash: 1469598103934665603}
+	zzsimhook.ResetPools() // object pools of the instrumented library start every run empty
 	s.sslot = b.NewSlot()
 	return s
 }
@@ -112,6 +131,9 @@ func (s *Sim) Run() {
 					if _, ok := r.(stepCap); !ok {
 						t.Panic = r
 						t.Stack = string(debug.Stack())
+						if _, dl := r.(Deadlocked); dl {
+							t.Stack = "" // the stacks of a deadlock differ with who noticed it first
+						}
 					}
 				}
 				s.finish(t)
@@ -161,6 +183,7 @@ func (s *Sim) dispatch(t *Task, q int) {
 func (s *Sim) finish(t *Task) {
 	t.done = true
 	s.cur = nil
+	s.blockedStreak = 0
 	s.B.Post(s.sslot)
 }
 
@@ -168,9 +191,15 @@ func (s *Sim) finish(t *Task) {
 // advances the event counter.
 //
 //go:norace
-func (s *Sim) Yield(site string) {
+func (s *Sim) Yield(site string) { s.yield(site, false) }
+
+//go:norace
+func (s *Sim) yield(site string, blocked bool) {
 	s.Seq++
 	t := s.cur
+	if !blocked {
+		s.blockedStreak, s.blockedSites = 0, s.blockedSites[:0]
+	}
 	if t == nil {
 		if s.Seq > 4*s.MaxSteps {
 			panic("sim: step cap exceeded outside tasks (livelock in a set-up or recovery phase)")
@@ -202,10 +231,30 @@ func (s *Sim) Yield(site string) {
 //
 //go:norace
 func (s *Sim) YieldBlocked(site string) {
-	if t := s.cur; t != nil {
+	t := s.cur
+	if t != nil {
 		t.quantum = 0
+		// Only blocked yields for a long stretch -- no task yielded normally and none finished --
+		// means nobody can release what the waiters wait for: the run is deadlocked. (A task that
+		// makes progress either reaches a normal yield point or finishes; both reset the streak.)
+		s.blockedStreak++
+		if len(s.blockedSites) < 8 {
+			s.blockedSites = append(s.blockedSites, fmt.Sprintf("task %s at %s", t.Name, site))
+		}
+		live := 0
+		for _, x := range s.tasks {
+			if !x.done {
+				live++
+			}
+		}
+		if s.Deadlock != "" || s.blockedStreak > 64*live+64 {
+			if s.Deadlock == "" {
+				s.Deadlock = strings.Join(s.blockedSites, "; ")
+			}
+			panic(Deadlocked{s.Deadlock})
+		}
 	}
-	s.Yield(site)
+	s.yield(site, true)
 }
 
 // Stamp returns the next event sequence number without yielding (history stamps).
